@@ -431,6 +431,11 @@ class Extractor:
         if q is None and self.scope is not None:
             q = self.scope.resolve_call(e)
         if q is not None:
+            fi = getattr(self.project, "funcs", {}).get(q) if getattr(self, "project", None) is not None else None
+            if fi is not None:
+                body = [st for st in fi.node.body if not (isinstance(st, ast.Expr) and isinstance(st.value, ast.Constant))]
+                if len(body) == 1 and isinstance(body[0], ast.Raise):
+                    return RAISE        # a helper whose whole body is `raise ...`: calling it is raising
             return mk_call(q, tuple(args))
         if isinstance(e.func, ast.Attribute):
             return mk_method(e.func.attr, self.ev(e.func.value, env), tuple(args))
